@@ -33,6 +33,18 @@ let () =
      | "qtm", [wb; rq; hex] ->
          let (sts, out) = qtm_run (n_of_int (int_of_string wb)) (bytes_of_hex hex) (List.map n_of_int (ints rq)) in
          Printf.printf "%s %s\n" (String.concat "," (List.map (fun x -> string_of_int (int_of_n x)) sts)) (hex_of_bytes out)
+     | "szddl2", [script; fl; hex] ->
+         (* fl: "-" or k:i:m,k:i:m  (k: 0 open 1 read 2 write 3 seek 4 alloc) *)
+         let faults = if fl = "-" then [] else List.map (fun t -> match List.map int_of_string (String.split_on_char ':' t) with
+                        | [k; i; m] -> ((n_of_int k, n_of_int i), n_of_int m) | _ -> ((N0, N0), N0)) (String.split_on_char ',' fl) in
+         let pr_ev tr = String.concat ";" (List.map (fun l -> String.concat " " (List.map (fun x -> string_of_int (int_of_n x)) l)) tr) in
+         let pr_outs outs = String.concat "," (List.map (fun o -> if o = [] then "-" else hex_of_bytes o) outs) in
+         if script = "A" then begin
+           let (((e, le), tr), outs) = run_script_decompress (bytes_of_hex hex) faults in
+           Printf.printf "%d,%d|%s|%s\n" (int_of_n e) (int_of_n le) (pr_ev tr) (pr_outs outs) end
+         else begin
+           let ((r, tr), outs) = run_script_open_extract (bytes_of_hex hex) faults in
+           Printf.printf "%s|%s|%s\n" (String.concat "," (List.map (fun x -> string_of_int (int_of_n x)) r)) (pr_ev tr) (pr_outs outs) end
      | "lzss", [mode; hex] -> Printf.printf "0 %s\n" (hex_of_bytes (lzss_spec (n_of_int (int_of_string mode)) (bytes_of_hex hex)))
      | _ -> print_endline "?");
     flush stdout
